@@ -139,6 +139,18 @@ def check(ctx):
                         signature="fitted by " + alt[0].data["callee"], routine=alt[0].data["callee"],
                     )
                     continue
+                # the fitted amplitude taken from regularize_initial_guess: that helper moves a *first guess* inside the
+                # limits - a value above the upper limit comes back as the midpoint of the interval, not as the limit.  It
+                # is not the projection a bounded least-squares optimum needs
+                st_m = [e for e in p.events if e.kind == "store_attr" and e.data["attr"] == "M_"]
+                via_reg = [e for e in st_m if any(a_[0] == "fn" and reg.qualname in a_[1] for a_ in nf.atoms(it.to_nf(e.data["value"])))]
+                if via_reg:
+                    ctx.bad(
+                        "C05-d", FC + f"ForecasterOnePhase.fit [{tag}]:bounded least squares", f"{m.file}:{via_reg[0].line}",
+                        "the parameters come from the bounded least-squares fit of the documented model M * rf(t / tau) (no intercept, limits from Bounds)",
+                        signature="M_ limited by regularize_initial_guess", routine=reg.qualname,
+                    )
+                    continue
             raise AnalysisError(f"fit [{tag}]: expected one curve_fit call")
         a = cf[0].data["args"]
         where = f"{m.file}:{cf[0].line}"
